@@ -24,8 +24,11 @@ score scenario  {'kind': 'score', 'tasks': [{'steps': [{'acts': [['bundle', late
                  'ret': delta|None}]}], 'init': [['play', j, delta] | ['bundle', time|None, id]], 'tail': t}
     result: {'list': [[time, id|cmd], ...], 'raw': [[timetag/2^32, id|cmd], ...]}
 
-ppar scenario   {'kind': 'ppar', 'streams': [[dur, dur, ...], ...]}
-    result: {'events': [[stream, k, onset], ...]}
+ppar scenario   {'kind': 'ppar', 'tree': node, 'shared': [node, ...], 'nstreams': n, 'order': [stream index, ...]}
+    node: ['bind', sid, [dur, ...]] | ['par', [node, ...]] | ['ref', k] (the SAME pattern object shared[k] again)
+    n streams are made from the ONE root object and read in the given interleaving, then round robin to the end.
+    (old form {'streams': [[dur, ...], ...]} = one stream of a Ppar of Pbinds)
+    result: {'events': [[[sid, k, onset], ...] per stream]}
 """
 from fractions import Fraction as _Fraction
 from math import floor
@@ -157,22 +160,48 @@ def ref_score(sc):
     return [[str(t), m[2]] for t, m in score]
 
 
-def ref_ppar(sc):
-    durs = [[Fr(d) for d in s] for s in sc['streams']]
+def ppar_tree(sc):
+    return sc['tree'] if 'tree' in sc else ['par', [['bind', i, d] for i, d in enumerate(sc['streams'])]]
+
+
+def _ref_embed(node, sc):
+    """events of ONE stream of a pattern: dicts sid, k, delta, rest.  A Ppar merges its children with a queue of
+    its own (one per stream): earliest child first, FIFO among equal times, a child is re-queued at now + delta."""
+    if node[0] == 'bind':
+        for k, d in enumerate(node[2]):
+            yield {'sid': node[1], 'k': k, 'delta': Fr(d), 'rest': False}
+        return
+    if node[0] == 'ref':                                    # the same pattern OBJECT again: a new, independent stream
+        yield from _ref_embed(sc['shared'][node[1]], sc)
+        return
+    kids = [_ref_embed(c, sc) for c in node[1]]
     q = SortedListQueue()
-    for i in range(len(durs)):
+    for i in range(len(kids)):
         q.add(Fr(0), i)
-    k = [0] * len(durs)
-    now, out = Fr(0), []
+    now = Fr(0)
     while not q.empty():
         _, i = q.pop()
-        if k[i] < len(durs[i]):
-            out.append([i, k[i], str(now)])
-            q.add(now + durs[i][k[i]], i)
-            k[i] += 1
-            now = q.peek()[0]
-        elif not q.empty():
-            now = q.peek()[0]
+        ev = next(kids[i], None)
+        if ev is None:                                      # that child ended: rest until the next one
+            if not q.empty():
+                nxt = q.peek()[0]
+                yield {'sid': None, 'k': None, 'delta': nxt - now, 'rest': True}
+                now = nxt
+            continue
+        q.add(now + ev['delta'], i)
+        nxt = q.peek()[0]
+        yield dict(ev, delta=nxt - now)
+        now = nxt
+
+
+def ref_ppar(sc):
+    t, out = Fr(0), []
+    for ev in _ref_embed(ppar_tree(sc), sc):
+        if not ev['rest']:
+            out.append([ev['sid'], ev['k'], str(t)])
+        t += ev['delta']
+    if 'tree' in sc or sc.get('nstreams', 1) > 1:
+        return [out for _ in range(sc.get('nstreams', 1))]  # every stream of the object is the same merge
     return out
 
 
@@ -230,12 +259,17 @@ def judge_ppar(sc, res):
     ev = res.get('events')
     if ev is None:
         return ('other', 'runner error: %s' % res.get('error'))
-    ts = [Fr(t) for _, _, t in ev]
-    if any(a > b for a, b in zip(ts, ts[1:])):
-        return ('order', 'Ppar onsets decrease: %s' % ev)
-    if ev != exp:
-        same = sorted(map(tuple, ev)) == sorted(map(tuple, exp))
-        return ('fifo-on-ties' if same else 'at-most-once', 'Ppar events %s, expected %s' % (ev, exp))
+    many = 'tree' in sc or sc.get('nstreams', 1) > 1
+    for n, (e, x) in enumerate(zip(ev, exp) if many else [(ev, exp)]):
+        ts = [Fr(t) for _, _, t in e]
+        who = 'stream %d of %d of one pattern object: ' % (n, len(ev)) if many else ''
+        if any(a > b for a, b in zip(ts, ts[1:])):
+            return ('order', '%sPpar onsets decrease: %s' % (who, e))
+        if e != x:
+            same = sorted(map(repr, e)) == sorted(map(repr, x))
+            return ('fifo-on-ties' if same else 'at-most-once', '%sPpar events %s, expected %s' % (who, e, x))
+    if not res.get('ended', True):
+        return ('empty', 'Ppar stream did not end: %s' % ev)
     return None
 
 
